@@ -15,13 +15,13 @@ import (
 	"fmt"
 	"io"
 	"math"
-	"net"
 	"os"
 	"os/exec"
 	"strings"
 	"sync"
 	"syscall"
 	"time"
+	"verifharness/internal/hx"
 
 	pb "github.com/marekgalovic/anndb/protobuf"
 	"google.golang.org/grpc"
@@ -708,26 +708,7 @@ func (s *server) kill() {
 	}
 }
 
-// every driver process takes its ports from its own block below the ephemeral range (parallel drivers that ask
-// the kernel for a free port and close it again can pick the same one)
-var portSeq int
-
-func freePort() string {
-	for try := 0; try < 400; try++ {
-		portSeq++
-		port := 5000 + (os.Getpid()%250)*100 + portSeq%100
-		l, err := net.Listen("tcp", fmt.Sprintf(":%d", port))
-		if err != nil {
-			continue
-		}
-		l.Close()
-		return fmt.Sprint(port)
-	}
-	l, _ := net.Listen("tcp", "127.0.0.1:0")
-	defer l.Close()
-	_, p, _ := net.SplitHostPort(l.Addr().String())
-	return p
-}
+func freePort() string { return hx.FreePort() }
 
 // probe: a valid insert + search on the valid dataset must work (retried while the partitions elect)
 func probe(e *env, n byte) string {
@@ -752,6 +733,7 @@ func probe(e *env, n byte) string {
 }
 
 func main() {
+	defer hx.ReleasePorts()
 	if os.Args[1] == "list" {
 		for _, c := range classes() {
 			fmt.Println(c.name)
